@@ -2349,8 +2349,27 @@ impl Rewrite for ast::Param {
             }
 
             Ok(result)
-        } else {
+        } else if self.attrs.is_empty() {
             self.ty.rewrite_result(context, shape)
+        } else {
+            // An unnamed parameter (`fn(#[attr] u8)`) keeps its attributes, too.
+            let ty_str = self.ty.rewrite_result(context, shape)?;
+            let span = mk_sp(
+                self.attrs[self.attrs.len() - 1].span.hi(),
+                self.ty.span.lo(),
+            );
+            if contains_comment(context.snippet(span)) {
+                // (leave a parameter with a comment between its attributes and its type alone)
+                return Err(RewriteError::Unknown);
+            }
+            combine_strs_with_missing_comments(
+                context,
+                &param_attrs_result,
+                &ty_str,
+                span,
+                shape,
+                !has_multiple_attr_lines && !has_doc_comments,
+            )
         }
     }
 }
